@@ -9,11 +9,19 @@
                            descriptor at the start of the next line
   ★ `prefix_monotone`      the run of `P ++ S` extends the run of a complete `P`, whatever `S` is
     `frame_exec`           a command never depends on input it did not reach
+  ★ `read_logical_line`, `read_leaves_what_follows`, `exec_read_leaves_what_follows`,
+    `read_trailing_backslashes`   the `read` built-in takes exactly the first logical line (shortest
+                           prefix ending with the delimiter after an even number of backslashes) and
+                           leaves exactly what follows it
 -/
 import YashModel.Input.Steps
 import YashModel.Input.Utf8
 import YashModel.Input.ChunkLemmas
 import YashModel.Input.SpecEq
+import YashModel.Input.Logical
+import YashModel.Input.Compose
+import YashModel.Expansion.ReadLemmas
+import YashModel.Generated.InputConsts
 namespace YashModel.Input
 
 /-- ★ `next_line`: the line and the rest are the input; the line has no newline except possibly as
@@ -167,7 +175,7 @@ theorem read_consumes (d : Nat) (hd : d < 128) (raw : Bool) (inp : List Byte) :
   subst hpp
   exact h4'
 
-example : readLine 10 true [0xE2, 0x82, 0xAC, 10, 120] [] = ([(Char.ofNat 0x20AC, false)], .found, [120]) := by
+example : readLine 10 true [0xE2, 0x82, 0xAC, 10, 120] [] = ([Expansion.plainChar (Char.ofNat 0x20AC)], .found, [120]) := by
   decide
 
 /-- ★ chunking-independence of a *whole run*.  `runC chunks` is the shell fed through standard input
@@ -646,5 +654,335 @@ theorem prefix_monotone_file (P S data : List Byte)
 example : (run true [58, 10] []).2.1 = .eof ∧ (run true [58, 10] []).1.hitEof = false := by decide
 
 example : ∀ it ∈ ([] : List Iter), IterOK it := by simp
+
+/-! ### `read` takes exactly one logical line (Spec: `ReadSpec.lean`) -/
+
+/-- the Spec function `firstLogicalLine` characterised declaratively: it returns `(pre, rest)` iff `pre`
+    is a prefix of the input that is a complete logical line (ends with the delimiter byte after an
+    even number of backslashes; any number with `-r`) and **no shorter prefix is one**; it returns
+    `none` iff no prefix of the input is a complete logical line. -/
+theorem first_logical_line_spec (d : Nat) (raw : Bool) (inp : List Byte) :
+    (∀ pre rest, firstLogicalLine d raw inp = some (pre, rest) ↔
+      (pre ++ rest = inp ∧ logicalEnd d raw pre = true ∧
+        ∀ q s, q ++ s = pre → s ≠ [] → logicalEnd d raw q = false))
+    ∧ (firstLogicalLine d raw inp = none ↔ ∀ q s, q ++ s = inp → logicalEnd d raw q = false) := by
+  have fwd : ∀ pre rest, firstLogicalLine d raw inp = some (pre, rest) →
+      (pre ++ rest = inp ∧ logicalEnd d raw pre = true ∧
+        ∀ q s, q ++ s = pre → s ≠ [] → logicalEnd d raw q = false) := by
+    intro pre rest h
+    obtain ⟨w, h1, h2, h3, h4⟩ := scanLogical_some d raw inp [] pre rest (logicalEnd_nil d raw) h
+    simp only [List.nil_append] at h1 h4
+    subst h1
+    exact ⟨h2, h3, h4⟩
+  refine ⟨fun pre rest => ⟨fwd pre rest, ?_⟩, ?_, ?_⟩
+  · rintro ⟨h1, h2, h3⟩
+    have hne : pre ≠ [] := by
+      intro e; subst e; simp [logicalEnd_nil] at h2
+    have := scanLogical_unique d raw pre [] rest hne (by simpa using h2)
+      (fun q s hqs hs _ => by simpa using h3 q s hqs hs)
+    subst h1
+    simpa [firstLogicalLine] using this
+  · intro h q s hqs
+    by_cases hq : q = []
+    · subst hq; exact logicalEnd_nil d raw
+    · simpa using scanLogical_none d raw inp [] h q s hqs hq
+  · intro h
+    cases hf : firstLogicalLine d raw inp with
+    | none => rfl
+    | some pr =>
+      obtain ⟨pre, rest⟩ := pr
+      obtain ⟨h1, h2, _⟩ := fwd pre rest hf
+      rw [h pre rest h1] at h2
+      simp at h2
+
+/-- a line `w` followed by `k` backslashes and a newline (`w` not itself ending in a backslash) is a
+    complete logical line for `read` iff `k` is **even**; for `read -r` always -/
+theorem logical_end_parity (w : List Byte) (k : Nat) (hw : w.getLast? ≠ some BS) :
+    logicalEnd 10 false (w ++ List.replicate k BS ++ [NL]) = (k % 2 == 0)
+    ∧ logicalEnd 10 true (w ++ List.replicate k BS ++ [NL]) = true := by
+  rw [logicalEnd_snoc, logicalEnd_snoc, trailingBs_replicate w hw k]
+  simp [NL]
+
+example : logicalEnd 10 false ([97, 98] ++ List.replicate 2 BS ++ [NL]) = true := by decide
+example : logicalEnd 10 false ([97, 98] ++ List.replicate 3 BS ++ [NL]) = false := by decide
+
+/-- ★ where `read` stops, for **every** byte input, one-byte delimiter and mode, against the Spec:
+    when it found its delimiter, what it consumed is exactly the first logical line of the input and
+    what it leaves is exactly what follows that line; at end of input no prefix of the input was a
+    complete logical line (and everything was consumed); when it fails with EILSEQ the input is not
+    valid UTF-8 and it still has not gone past the end of the first logical line. -/
+theorem read_logical_line (d : Nat) (hd : d < 128) (raw : Bool) (inp : List Byte) :
+    ((readLine d raw inp []).2.1 = .found →
+        ∃ pre, pre ++ (readLine d raw inp []).2.2 = inp ∧
+          firstLogicalLine d raw inp = some (pre, (readLine d raw inp []).2.2))
+    ∧ ((readLine d raw inp []).2.1 = .eof →
+        firstLogicalLine d raw inp = none ∧ (readLine d raw inp []).2.2 = [])
+    ∧ ((readLine d raw inp []).2.1 = .err →
+        validUtf8 [] inp = false ∧
+        ∀ pre rest, firstLogicalLine d raw inp = some (pre, rest) →
+          ∃ m, (readLine d raw inp []).2.2 = m ++ rest) := by
+  obtain ⟨h1, h2, h3⟩ := readLine_logical d hd raw inp
+  refine ⟨?_, h2, h3⟩
+  intro hf
+  obtain ⟨pre, e1, e2⟩ := h1 hf
+  exact ⟨pre, e1, by simpa [firstLogicalLine] using e2⟩
+
+/-- an escaped backslash right before the newline: the line ends there, the next line is untouched -/
+example : (readLine 10 false [97, 92, 92, 10, 120, 10] []).2 = (.found, [120, 10]) := by decide
+/-- a single backslash before the newline: line continuation -/
+example : (readLine 10 false [97, 92, 10, 120, 10] []).2 = (.found, []) := by decide
+
+/-- ★ "whatever follows the current command on standard input remains available": if the input
+    starts with a complete logical line `pre` (shortest such prefix) that is valid UTF-8, `read` finds
+    its delimiter and leaves **exactly** `rest`, whatever `rest` is — and the same through any chunked
+    source delivering those bytes. -/
+theorem read_leaves_what_follows (d : Nat) (hd : d < 128) (raw : Bool) (pre rest : List Byte)
+    (hfirst : firstLogicalLine d raw (pre ++ rest) = some (pre, rest))
+    (hv : validUtf8 [] pre = true) :
+    (readLine d raw (pre ++ rest) []).2 = (.found, rest)
+    ∧ ∀ cs : List (List Byte), cs.flatten = pre ++ rest →
+        (readLineCGo d raw false [] cs []).2.1 = .found
+        ∧ (readLineCGo d raw false [] cs []).2.2.flatten = rest := by
+  have hspec := ((first_logical_line_spec d raw (pre ++ rest)).1 pre rest).1 hfirst
+  have hpre : firstLogicalLine d raw pre = some (pre, []) :=
+    ((first_logical_line_spec d raw pre).1 pre []).2 ⟨by simp, hspec.2.1, hspec.2.2⟩
+  obtain ⟨g1, g2, g3⟩ := read_logical_line d hd raw pre
+  have key : (readLine d raw (pre ++ rest) []).2 = (.found, rest) := by
+    cases hst : (readLine d raw pre []).2.1 with
+    | found =>
+      obtain ⟨p2, _, e2⟩ := g1 hst
+      rw [hpre] at e2
+      simp only [Option.some.injEq, Prod.mk.injEq] at e2
+      have hrl : readLine d raw pre [] = ((readLine d raw pre []).1, .found, []) := by
+        rw [← hst, e2.2]
+      have := readLine_append (d := d) raw pre rest [] _ _ hrl
+      rw [this]; simp
+    | eof => rw [(g2 hst).1] at hpre; simp at hpre
+    | err => rw [(g3 hst).1] at hv; simp at hv
+  refine ⟨key, ?_⟩
+  intro cs hcs
+  have e := readLineCGo_eq d raw false [] cs []
+  rw [hcs] at e
+  have e' : ((readLineCGo d raw false [] cs []).2.1, (readLineCGo d raw false [] cs []).2.2.flatten)
+      = (readLine d raw (pre ++ rest) []).2 := by
+    rw [readLine, ← e]
+  rw [key] at e'
+  simp only [Prod.mk.injEq] at e'
+  exact e'
+
+example : firstLogicalLine 10 false ([97, 92, 92, 10] ++ [120, 10]) = some ([97, 92, 92, 10], [120, 10])
+    ∧ validUtf8 [] [97, 92, 92, 10] = true := by decide
+
+/-- ★ the same for the `read` built-in of the machine (the function the driver runs): in any state
+    whose standard input starts with a valid logical line `pre` followed by `rest`, after `read`
+    standard input is exactly `rest` and its offset has advanced by exactly `|pre|` — with a shared
+    descriptor `rest` is what the shell parses next. -/
+theorem exec_read_leaves_what_follows (s : State) (d : Nat) (hd : d < 128) (raw : Bool)
+    (names : List String) (pre rest : List Byte)
+    (hfirst : firstLogicalLine d raw s.stdin = some (pre, rest)) (hv : validUtf8 [] pre = true) :
+    (execRead s d raw names).stdin = rest
+    ∧ (execRead s d raw names).pos = s.pos + pre.length
+    ∧ (s.shared = true → (execRead s d raw names).inp = rest)
+    ∧ (s.shared = false → (execRead s d raw names).inp = s.inp)
+    ∧ (execRead s d raw names).hitEof = s.hitEof := by
+  have hin : pre ++ rest = s.stdin :=
+    (((first_logical_line_spec d raw s.stdin).1 pre rest).1 hfirst).1
+  have h := (read_leaves_what_follows d hd raw pre rest (by rw [hin]; exact hfirst) hv).1
+  rw [hin] at h
+  have h1 : (readLine d raw s.stdin []).2.1 = .found := by rw [h]
+  have h2 : (readLine d raw s.stdin []).2.2 = rest := by rw [h]
+  have hlen : s.stdin.length - rest.length = pre.length := by
+    rw [← hin]; simp
+  cases hsh : s.shared <;>
+    simp [execRead, State.stdin, State.setStdin, hsh] <;>
+    (simp only [State.stdin, hsh] at hlen h2 h1; simp_all)
+
+/-- the hypotheses are met by a shell reading `a\\` + newline + `x` + newline from the descriptor it
+    shares with `read` (an escaped backslash at the end of the data line) -/
+example : firstLogicalLine 10 false (initState true [97, 92, 92, 10, 120, 10] []).stdin
+      = some ([97, 92, 92, 10], [120, 10]) ∧ validUtf8 [] [97, 92, 92, 10] = true := by decide
+
+example : (execRead (initState true [97, 92, 92, 10, 120, 10] []) 10 false ["v1"]).inp = [120, 10] :=
+  ((exec_read_leaves_what_follows _ 10 (by decide) false ["v1"] [97, 92, 92, 10] [120, 10]
+    (by decide) (by decide)).2.2.1) rfl
+
+/-- ★ data lines that end in backslashes.  `w` is the text of the line before them (no newline in it,
+    not ending in a backslash, valid UTF-8), `k` the number of backslashes before the newline.
+    `k` even: `read` stops at that newline and leaves exactly what follows.  `read -r`: always.
+    `k` odd: the newline is a line continuation — the logical line goes on into what follows (the
+    Spec's scan continues with `rest`). -/
+theorem read_trailing_backslashes (w rest : List Byte) (k : Nat)
+    (hnl : ∀ x ∈ w, x ≠ NL) (hw : w.getLast? ≠ some BS) (hv : validUtf8 [] w = true) :
+    (k % 2 = 0 →
+        (readLine 10 false (w ++ List.replicate k BS ++ [NL] ++ rest) []).2 = (.found, rest))
+    ∧ (readLine 10 true (w ++ List.replicate k BS ++ [NL] ++ rest) []).2 = (.found, rest)
+    ∧ (k % 2 = 1 →
+        firstLogicalLine 10 false (w ++ List.replicate k BS ++ [NL] ++ rest)
+          = scanLogical 10 false (w ++ List.replicate k BS ++ [NL]) rest) := by
+  have hu : ∀ x ∈ w ++ List.replicate k BS, x.toNat ≠ 10 := by
+    intro x hx
+    rcases List.mem_append.1 hx with h | h
+    · intro e; exact hnl x h ((byte_eq_nl x).2 e)
+    · have := (List.mem_replicate.1 h).2; subst this; decide
+  have hscan : ∀ raw, firstLogicalLine 10 raw (w ++ List.replicate k BS ++ [NL] ++ rest)
+      = if logicalEnd 10 raw (w ++ List.replicate k BS ++ [NL]) then
+          some (w ++ List.replicate k BS ++ [NL], rest)
+        else scanLogical 10 raw (w ++ List.replicate k BS ++ [NL]) rest := by
+    intro raw
+    have := scanLogical_skip 10 raw (w ++ List.replicate k BS) [] ([NL] ++ rest) hu
+    simp only [firstLogicalLine, List.append_assoc] at this ⊢
+    rw [this]
+    simp [scanLogical, List.append_assoc]
+  have hvalid : validUtf8 [] (w ++ List.replicate k BS ++ [NL]) = true := by
+    rw [List.append_assoc]
+    refine validUtf8_append_ascii w _ ?_ [] hv
+    intro x hx
+    rcases List.mem_append.1 hx with h | h
+    · have := (List.mem_replicate.1 h).2; subst this; decide
+    · simp at h; subst h; decide
+  obtain ⟨p1, p2⟩ := logical_end_parity w k hw
+  refine ⟨?_, ?_, ?_⟩
+  · intro hk
+    have hf := hscan false
+    rw [p1] at hf
+    simp only [hk, beq_self_eq_true, if_true] at hf
+    exact (read_leaves_what_follows 10 (by decide) false _ rest hf hvalid).1
+  · have hf := hscan true
+    rw [p2] at hf
+    simp only [if_true] at hf
+    exact (read_leaves_what_follows 10 (by decide) true _ rest hf hvalid).1
+  · intro hk
+    have hf := hscan false
+    rw [p1] at hf
+    simpa [hk] using hf
+
+/-- the hypotheses are met by `ab` with two and with three backslashes -/
+example : (∀ x ∈ ([97, 98] : List Byte), x ≠ NL) ∧ ([97, 98] : List Byte).getLast? ≠ some BS
+    ∧ validUtf8 [] [97, 98] = true := by decide
+
+/-! ### composition with C01 (`YashModel.Expansion`): the characters and the values of `read` -/
+
+/-- ★ composition with C01, reader level: on valid UTF-8 input, `read` as this area models it (one
+    byte per `read`, characters assembled by `from_utf8` on a 4-byte buffer, an escape flag) collects
+    exactly the attributed characters that the C01 model of `read/input.rs` collects from the decoded
+    characters, and finds its delimiter exactly when that one does — so everything C01 proves about the
+    logical line (`Expansion.readInput_eq_specReadInput`, `read_line_value`, `read_raw_line`) holds
+    for what the shell reads from a descriptor byte by byte. -/
+theorem read_bytes_eq_chars (d : Nat) (hd : d < 128) (raw : Bool) (inp : List Byte)
+    (hv : validUtf8 [] inp = true) :
+    (readLine d raw inp []).1 = (Expansion.readInput raw (Char.ofNat d) (toChars inp)).1
+    ∧ ((readLine d raw inp []).2.1 = .found ↔
+        (Expansion.readInput raw (Char.ofNat d) (toChars inp)).2 = true)
+    ∧ (readLine d raw inp []).2.1 ≠ .err := by
+  have h := readLineGo_eq_readInput d hd raw inp false [] [] hv
+  simp only [Bool.false_eq_true, if_false, List.nil_append] at h
+  refine ⟨h.1, ?_, ?_⟩
+  · rw [readLine, h.2, toChars]
+    cases (Expansion.readInput raw (Char.ofNat d) (decodeGo [] inp)).2 <;> simp [statOf]
+  · rw [readLine, h.2]
+    cases (Expansion.readInput raw (Char.ofNat d) (decodeGo [] inp)).2 <;> simp [statOf]
+
+example : validUtf8 [] [97, 92, 32, 0xC3, 0xA9, 10] = true := by decide
+
+/-- the characters `read` collects from a descriptor that starts with the valid logical line `pre` are
+    those of `pre` alone, whatever follows -/
+theorem read_first_line_chars (d : Nat) (hd : d < 128) (raw : Bool) (pre rest : List Byte)
+    (hfirst : firstLogicalLine d raw (pre ++ rest) = some (pre, rest))
+    (hv : validUtf8 [] pre = true) :
+    readLine d raw (pre ++ rest) [] =
+      ((Expansion.readInput raw (Char.ofNat d) (toChars pre)).1, .found, rest) := by
+  have hspec := ((first_logical_line_spec d raw (pre ++ rest)).1 pre rest).1 hfirst
+  have hpre : firstLogicalLine d raw pre = some (pre, []) :=
+    ((first_logical_line_spec d raw pre).1 pre []).2 ⟨by simp, hspec.2.1, hspec.2.2⟩
+  have h := (read_leaves_what_follows d hd raw pre [] (by simpa using hpre) hv).1
+  simp only [List.append_nil] at h
+  have hrl : readLine d raw pre [] = ((readLine d raw pre []).1, .found, []) := by
+    rw [← h]
+  have := readLine_append (d := d) raw pre rest [] _ _ hrl
+  rw [this, (read_bytes_eq_chars d hd raw pre hv).1]
+  simp
+
+/-- ★ composition with C01, end to end: in any state whose standard input starts with the valid
+    logical line `pre` (as the Spec of this area finds it) followed by `rest`, the `read` built-in of
+    the machine assigns to its variables, in order, exactly the values that the **C01 Spec** prescribes
+    (`Expansion.specRead` — XCU `read` on POSIX field splitting with the default IFS — applied to
+    `Expansion.specReadInput`, the logical line by items, of the decoded bytes of `pre`), returns 0,
+    and leaves exactly `rest` on the descriptor.  (No NUL character in the line: then `read` fails.) -/
+theorem exec_read_assigns_spec (s : State) (d : Nat) (hd : d < 128) (raw : Bool)
+    (names : List String) (pre rest : List Byte) (hn : names ≠ [])
+    (hfirst : firstLogicalLine d raw s.stdin = some (pre, rest)) (hv : validUtf8 [] pre = true)
+    (hnul : hasNul (Expansion.readInput raw (Char.ofNat d) (toChars pre)).1 = false) :
+    (execRead s d raw names).vars =
+        assignValues names
+          (Expansion.specRead Expansion.Ifs.default
+            (Expansion.specReadInput raw (Char.ofNat d) (toChars pre)).1 (names.length - 1)) s.vars
+    ∧ (execRead s d raw names).status = 0
+    ∧ (execRead s d raw names).stdin = rest := by
+  have hin : pre ++ rest = s.stdin :=
+    (((first_logical_line_spec d raw s.stdin).1 pre rest).1 hfirst).1
+  have h := read_first_line_chars d hd raw pre rest (by rw [hin]; exact hfirst) hv
+  rw [hin] at h
+  have hE : Expansion.readAssign Expansion.Ifs.default
+        (Expansion.readInput raw (Char.ofNat d) (toChars pre)).1 (names.length - 1)
+      = Expansion.specRead Expansion.Ifs.default
+        (Expansion.specReadInput raw (Char.ofNat d) (toChars pre)).1 (names.length - 1) := by
+    rw [Expansion.readInput_eq_specReadInput]
+    exact Expansion.readAssign_eq_specRead _ _ _
+  have hne : names.isEmpty = false := by
+    cases names with
+    | nil => exact absurd rfl hn
+    | cons _ _ => rfl
+  refine ⟨?_, ?_, (exec_read_leaves_what_follows s d hd raw names pre rest hfirst hv).1⟩
+  · cases hsh : s.shared <;>
+      simp [execRead, State.setStdin, hsh, h, readAssign, hnul, assignRead, hne, hE]
+  · cases hsh : s.shared <;>
+      simp [execRead, State.setStdin, hsh, h, readExit, hnul]
+
+/-- `read v1 v2` on `x y \` + newline + `z` + newline: the hypotheses hold (a continuation joins the lines) -/
+example : firstLogicalLine 10 false [120, 32, 121, 32, 92, 10, 122, 10, 113, 10]
+      = some ([120, 32, 121, 32, 92, 10, 122, 10], [113, 10])
+    ∧ validUtf8 [] [120, 32, 121, 32, 92, 10, 122, 10] = true := by decide
+
+
+/-! ### constants of the code (re-extracted on every run) -/
+section
+open YashModel.Generated
+
+/-- the literals the model types by hand are the literals of the code (re-extracted from /repo on every
+    run by tools/tables/input.py): the byte that ends a line for `FdReader2::next_line`, the default and
+    the NUL delimiter of `read`, the exit statuses of `read` (success, end of input, read error — also
+    for a NUL byte in the input), the statuses of a syntax error and of an unknown command; and the
+    character buffer of `read_char` (`[0; 4]`) is large enough for the model's loop: `utf8Check` never
+    asks for more after `READ_CHAR_MAX` bytes, so `buffer[len]` stays in bounds. -/
+theorem model_constants_are_the_codes :
+    NL.toNat = InputConsts.LINE_END
+    ∧ (∀ names, parseReadArgs names false InputConsts.READ_DEFAULT_DELIM = parseReadArgs names false 10)
+    ∧ (∀ rest r d, parseReadArgs ("-d" :: "" :: rest) r d = parseReadArgs rest r InputConsts.READ_NUL_DELIM)
+    ∧ readExit [] .found = InputConsts.READ_SUCCESS
+    ∧ readExit [] .eof = InputConsts.READ_EOF
+    ∧ (∀ cs, readExit cs .err = InputConsts.READ_ERROR)
+    ∧ (∀ st, readExit [Expansion.plainChar (Char.ofNat 0)] st = InputConsts.READ_ERROR)
+    ∧ (∀ s name args here, (execUtil s .unknown name args here).status = InputConsts.NOT_FOUND)
+    ∧ (∀ s args, args ≠ ["-v"] → args ≠ ["+v"] → (∀ o, args ≠ ["-o", o]) → (∀ o, args ≠ ["+o", o]) →
+         (execSet s args).status = InputConsts.SYNTAX_ERROR)
+    ∧ (∀ bs : List Byte, InputConsts.READ_CHAR_MAX ≤ bs.length → utf8Check bs ≠ .more) := by
+  refine ⟨rfl, fun _ => rfl, fun _ _ _ => rfl, rfl, rfl, fun _ => rfl, ?_, fun _ _ _ _ => rfl, ?_, ?_⟩
+  · intro st; cases st <;> rfl
+  · intro s args h1 h2 h3 h4
+    unfold execSet
+    split
+    · exact absurd rfl h1
+    · exact absurd rfl h2
+    · exact absurd rfl (h3 _)
+    · exact absurd rfl (h4 _)
+    · rfl
+  · intro bs hlen
+    have h4 : 4 ≤ bs.length := by simpa [InputConsts.READ_CHAR_MAX] using hlen
+    match bs, h4 with
+    | [a, b, c, e], _ =>
+      simp only [utf8Check]
+      split <;> simp
+    | a :: b :: c :: e :: f :: rest, _ => simp [utf8Check]
+end
 
 end YashModel.Input
